@@ -120,16 +120,13 @@ def _compute_headers(cols, col_indices):
 	display_names = []
 	sanitized_names = []
 	dtypes = []
+
+	# Dot names are disambiguated against ALL columns (as Table does), not only
+	# the displayed ones: a repeat whose first occurrence is hidden behind the
+	# column ellipsis still carries its indexed suffix.
+	all_sanitized = []
 	seen = set()
-
-	for idx in col_indices:
-		col = cols[idx]
-
-		# Display name
-		disp = col._name or ""
-		display_names.append(disp)
-
-		# Sanitized dot name
+	for idx, col in enumerate(cols):
 		if col._name:
 			san = _sanitize_user_name(col._name)
 			if san is None:
@@ -141,7 +138,17 @@ def _compute_headers(cols, col_indices):
 				seen.add(san)
 		else:
 			san = f"col{idx}_"
-		sanitized_names.append(san)
+		all_sanitized.append(san)
+
+	for idx in col_indices:
+		col = cols[idx]
+
+		# Display name
+		disp = col._name or ""
+		display_names.append(disp)
+
+		# Sanitized dot name
+		sanitized_names.append(all_sanitized[idx])
 
 		# Dtype (with nullable indicator)
 		if col._dtype:
